@@ -38,7 +38,7 @@ def main():
     if '--extra' in sys.argv:
         extra = sys.argv[sys.argv.index('--extra') + 1].split(',')
     src = '/tmp/seed/%s.out%s' % (prop, '' if letter in 'AB' else (
-        '2' if letter in 'CD' else '4'))
+        '2' if letter in 'CD' else ('4' if letter in 'EF' else '5')))
     patch = os.path.join(src, 'patch_%s.diff' % letter)
     demo = os.path.join(src, 'demo_%s.py' % letter)
     meta_in = {}
